@@ -12,7 +12,9 @@
 // after Lock returned, a deadline that passes during the hold, a cancelled ancestor, cancelled only after Unlock) held
 // for longer than a lease after that context ended while the other instances contend — the end of the context Lock
 // was called with is not an unlock. A heartbeat goroutine witnesses that the process was never stalled
-// for a sizeable part of a lease (a stalled run says nothing about the storage and is repeated).
+// for a sizeable part of a lease (a stalled run says nothing about the storage and is repeated). Slow renewals: some
+// renewal requests of a holder's goroutine need longer than a ticker period (but far less than the lease left) to reach
+// the KV — `renewslow` lines; a request the storage abandons before it is answered is logged as `kvrenew … => gaveup`.
 package main
 
 import (
@@ -249,6 +251,11 @@ type recKV struct {
 	inst      int
 	log       *lockLog
 	failRenew atomic.Bool
+	// transport latency: slow[n-1] > 0 means that the n-th Renew request of this instance needs that long to
+	// reach the KV (a latency spike / slow hop); like a real transport the wait ends early when the caller's
+	// context ends, and the KV is then never asked. The KV itself answers as always.
+	slow       []time.Duration
+	renewCalls atomic.Int32
 }
 
 func i64(x int64) string  { return strconv.FormatInt(x, 10) }
@@ -277,6 +284,22 @@ func (k *recKV) Acquire(ctx context.Context, lease []byte, ttl time.Duration) (u
 var errInjected = errors.New("injected renewal failure")
 
 func (k *recKV) Renew(ctx context.Context, lease []byte, ttl time.Duration, prev uint64) (uint64, error) {
+	if n := int(k.renewCalls.Add(1)); n <= len(k.slow) && k.slow[n-1] > 0 {
+		lat := k.slow[n-1]
+		k.log.mu.Lock()
+		k.log.add(hlib.F("renewslow %d %s %d %d", k.inst, hlib.Hex(lease), int64(lat), now()), "-")
+		k.log.mu.Unlock()
+		select {
+		case <-time.After(lat):
+		case <-ctx.Done():
+			// the caller gave the request up before it was answered: the KV never saw it
+			k.log.mu.Lock()
+			t := now()
+			k.log.add(hlib.F("kvrenew %d %s %d %d %d %d", k.inst, hlib.Hex(lease), int64(ttl), prev, t, t), "gaveup")
+			k.log.mu.Unlock()
+			return 0, ctx.Err()
+		}
+	}
 	k.log.mu.Lock()
 	defer k.log.mu.Unlock()
 	tb := now()
@@ -546,6 +569,31 @@ func scenarioScoped(log *lockLog, kv chord.KV, key string, ttl time.Duration, ki
 	wg.Wait()
 }
 
+// slow renewals: instance 0 takes the lock and keeps it for `hold`, much longer than a lease, while the others
+// contend; some of the renewal requests of its background goroutine are slow (`slow[n-1]` = latency of the n-th one):
+// longer than a ticker period (ttl/4) but far inside the lease that is left when the request is made (at least
+// 3/4 ttl). A holder whose renewal is answered late but in time has not lost anything: nobody else may obtain the
+// lock before it unlocks. After the hold it renews explicitly (still a proper holder) and unlocks; the others take turns.
+func scenarioSlowRenew(log *lockLog, kv chord.KV, key string, ttl time.Duration, n int, slow []time.Duration, hold time.Duration, base int) {
+	ins := mkInsts(n, ttl, log, kv, base)
+	ins[0].kv.slow = slow
+	ins[0].lock(key)
+	var wg sync.WaitGroup
+	for _, in := range ins[1:] {
+		wg.Add(1)
+		go func(in *inst) {
+			defer wg.Done()
+			in.lock(key)
+			time.Sleep(200 * time.Millisecond)
+			in.unlock(key)
+		}(in)
+	}
+	time.Sleep(hold)
+	ins[0].renewLock(key, ttl)
+	ins[0].unlock(key)
+	wg.Wait()
+}
+
 // heartbeat measures the longest interval in which a 20 ms ticker goroutine of this process did not get to run.
 type heartbeat struct {
 	stop chan struct{}
@@ -638,7 +686,27 @@ func runLocksOnce(thorough bool, rng *hlib.Rng) *lockLog {
 			kindsE = append(kindsE, hlib.Pick(rng, []string{"cancel", "cancel", "parent", "late", "bg"}))
 			delaysE = append(delaysE, time.Duration(rng.Intn(int(ttlE/time.Millisecond)/2))*time.Millisecond)
 		}
-		wg.Add(5)
+		// slow renewal requests (TTL 2 s, ticker every 500 ms, at least 1.5 s of lease left at each request): the
+		// nth request of the holder's goroutine needs 560..1000 ms — more than a ticker period, at least 500 ms less
+		// than the lease left —, optionally another one is slow too (shorter or longer than a period); the hold
+		// outlasts the lease that was current at the slow request by a polling interval (ttl/2) and more
+		ttlF := 2 * time.Second
+		nthF := 1 + rng.Intn(3)
+		slowF := make([]time.Duration, nthF+2)
+		slowF[nthF-1] = time.Duration(560+rng.Intn(441)) * time.Millisecond
+		if rng.Bool() {
+			o := rng.Intn(len(slowF))
+			if o != nthF-1 {
+				slowF[o] = time.Duration(50+rng.Intn(900)) * time.Millisecond
+			}
+		}
+		nF := 2 + rng.Intn(2)
+		holdF := time.Duration(nthF)*ttlF/4 + ttlF + ttlF/2 + 500*time.Millisecond
+		wg.Add(6)
+		go func() {
+			defer wg.Done()
+			scenarioSlowRenew(log, kv, hlib.F("lockF%d", round), ttlF, nF, slowF, holdF, 10*round+200)
+		}()
 		go func() {
 			defer wg.Done()
 			scenarioScoped(log, kv, hlib.F("lockE%d", round), ttlE, kindsE, delaysE, 10*round+100)
@@ -681,6 +749,13 @@ func emitLocks(r *hlib.Run, log *lockLog, repeated int) {
 		if op == "ctxdone" {
 			r.Count("lock:acquiring-context:" + strings.Split(l[0], " ")[3])
 		}
+		if op == "renewslow" {
+			if lat, _ := strconv.ParseInt(strings.Split(l[0], " ")[3], 10, 64); lat > int64(500*time.Millisecond) {
+				r.Count("lock:renewal-latency:longer-than-ticker-period")
+			} else {
+				r.Count("lock:renewal-latency:shorter-than-ticker-period")
+			}
+		}
 		if op == "locked" || op == "kvacq" || op == "kvrenew" || op == "kvrel" || op == "renewedlock" {
 			r.Case(l[0] + "|" + l[1])
 		}
@@ -691,7 +766,7 @@ var errNotExist = fs.ErrNotExist
 
 func main() {
 	r := hlib.Start()
-	r.Rule = "file store: one case = one random history (store/load/delete/exists/stat/list) over path-like keys built from a small segment alphabet (sibling keys sharing a string prefix, nesting, 4% malformed paths, 8% empty values); non-trivial evaluation = a load/exists/stat/list with its result; locks: every recorded lease call / Lock return of 2-3 real storage instances contending over one MemoryKV in real time (contention longer than the TTL, injected renewal failure, stale unlock, explicit RenewLockLease calls with various duration arguments by holders and non-holders followed by a hold longer than the lease under contention; locks acquired with request-scoped contexts — cancelled after Lock returned, deadline passing, cancelled ancestor, cancelled after Unlock — and held for more than a lease plus a polling interval after the context ended while 1-2 other instances contend)"
+	r.Rule = "file store: one case = one random history (store/load/delete/exists/stat/list) over path-like keys built from a small segment alphabet (sibling keys sharing a string prefix, nesting, 4% malformed paths, 8% empty values); non-trivial evaluation = a load/exists/stat/list with its result; locks: every recorded lease call / Lock return of 2-3 real storage instances contending over one MemoryKV in real time (contention longer than the TTL, injected renewal failure, stale unlock, explicit RenewLockLease calls with various duration arguments by holders and non-holders followed by a hold longer than the lease under contention; locks acquired with request-scoped contexts — cancelled after Lock returned, deadline passing, cancelled ancestor, cancelled after Unlock — and held for more than a lease plus a polling interval after the context ended while 1-2 other instances contend; a holder whose 1st..3rd background renewal request takes 560-1000 ms — longer than the ticker period, well inside the lease — to reach the KV, holding for more than a lease plus a polling interval afterwards while 1-2 instances contend)"
 	rng := hlib.NewRng(r.Seed)
 	f := &fileRun{r: r}
 	if r.Replay != "" {
@@ -699,7 +774,7 @@ func main() {
 		locks := false
 		for _, t := range r.ReplayLines() {
 			switch t[0] {
-			case "kvacq", "kvrenew", "kvrel", "locked", "unlocking", "unlocked", "renewing", "renewedlock", "ctxdone":
+			case "kvacq", "kvrenew", "kvrel", "locked", "unlocking", "unlocked", "renewing", "renewedlock", "ctxdone", "renewslow":
 				locks = true
 			default:
 				f.op(t)
